@@ -95,6 +95,28 @@ def hang_then_pass(rng):
             'mode': 'pass', 'contract': False, 'rank': list(range(m + 1)), 'fuel': 400, 'expect_disk': [star + 1]}
 
 
+def timeouts_over_rounds(rng):
+    """two rounds of one pass, each with fewer than MAX_TIMEOUTS hanging candidates before its interesting one, MAX or
+    more in total: the count is per round, so both rounds commit"""
+    mx = rng.choice([2, 3, 4])
+    a = rng.randint(1, mx - 1)
+    b = rng.randint(max(1, mx - a), mx - 1)
+    junk = max(a, b)
+    texts = ['x' * 12, 'y' * 8, 'z' * 4] + ['j' * (9 + i) for i in range(junk)]      # 0 input, 1 after round 0, 2 after round 1, 3… junk
+    p = {'name': 'p0', 'maxT': None, 'new': {'0': 0, '1': 0, '2': 0}, 'adv': {}, 'aos': {f'1.{a}': 0, f'2.{b}': 0}, 'tr': {}}
+    for c, n, good in ((0, a, 1), (1, b, 2)):
+        for j in range(n + 1):
+            p['tr'][f'{c}.{j}'] = ['OK', good if j == n else 3 + j, j]
+            if j < n:
+                p['adv'][f'{c}.{j}'] = j + 1
+    p['tr']['2.0'] = ['STOP', 2, 0]
+    return {'texts': texts, 'files': ['a.c'], 'disk': [0], 'passes': [p], 'groups': {'first': [], 'main': [0], 'last': []},
+            'cfg': {'cacheOn': False}, 'consts': {'MAX_TIMEOUTS': mx}, 'test': {**{str(i): 1 for i in range(len(texts))}, '0': 0, '1': 0, '2': 0},
+            'faults': {**{f'0.{j + 1}': 'timeout' for j in range(a)}, **{f'1.{j + 1}': 'timeout' for j in range(b)}},
+            'N': rng.choice([1, 2, 3, 6]), 'p_done': rng.choice([0.0, 1.0, 0.5]), 'wait_policy': rng.choice(['first', 'random']),
+            'mode': 'pass', 'contract': False, 'rank': list(range(len(texts))), 'fuel': 400, 'expect_disk': [2]}
+
+
 def oracle_carries_on(scen, obs):
     if 'expect_disk' in scen and obs['outcome'] == 'ok' and obs['disk'] != scen['expect_disk']:
         return 'interesting-candidate-dropped-after-a-timeout'
@@ -108,7 +130,8 @@ def run(ctx):
     ctx.lean_gate(OBLIGATIONS)
     diffs = []
     rows = D.sweep(ctx, scens(ctx, 500 if ctx.tier == 'quick' else 8000) + timeout_scens(ctx, 60 if ctx.tier == 'quick' else 600)
-                   + [hang_then_pass(ctx.rng) for _ in range(40 if ctx.tier == 'quick' else 400)], [oracle, oracle_timeouts, oracle_carries_on], diffs, nontriv)
+                   + [hang_then_pass(ctx.rng) for _ in range(40 if ctx.tier == 'quick' else 400)]
+                   + [timeouts_over_rounds(ctx.rng) for _ in range(30 if ctx.tier == 'quick' else 300)], [oracle, oracle_timeouts, oracle_carries_on], diffs, nontriv)
     ctx.sample({'scenario_key': D.scen_key(rows[4][0]), 'faults': rows[4][0]['faults'], 'consts': rows[4][0]['consts'], 'observed': rows[4][2]})
 
     # real pool, real scripts: exit!=0, SIGKILL, hang past the timeout, forking, megabytes of output, bytes that are not UTF-8
